@@ -79,6 +79,7 @@ let table : (str * (z list -> z)) list = [
   ("clictu", judge_clictu);
   ("leaf", judge_leaf);
   ("reprt", judge_reprt);
+  ("tu_net", judge_tu_net);
   ("cliverdict", judge_cliverdict);
 ]
 
